@@ -231,3 +231,13 @@ theorem code_payback_eq (cum : List Rat) : Code.PaybackFragment cum = paybackFix
   · simp only [hc, if_false]
 
 end GeoVerif
+
+namespace GeoVerif
+
+/-- `SBTEconomics.Calculate` carries its own copies of the payback scan and of the cash-flow assembly; as transcribed from the current source
+they are the same functions as those of `Economics.Calculate` (definitional equality of the two transcriptions) -/
+theorem sbt_payback_same : Code.PaybackFragmentSBT = Code.PaybackFragment := rfl
+
+theorem sbt_cashflow_same : Code.CashFlowFragmentSBT = Code.CashFlowFragment := rfl
+
+end GeoVerif
